@@ -3,7 +3,7 @@
    Administration Shell Part 1" for the key-type enumerations and XML Schema Part 2 for the
    integer ranges) - NOT from the code.  Definitions only. *)
 From Coq Require Import List ZArith Bool.
-From Basyx Require Import model.ConstraintsBase gen.Gen_RefChecks.
+From Basyx Require Import model.ConstraintsBase gen.Gen_RefChecks model.ConstraintsModel.
 Import ListNotations.
 Local Open Scope Z_scope.
 
@@ -72,3 +72,20 @@ Definition idshort_char (c : Z) : Prop := ascii_letter c \/ digit c \/ c = 95.
 Definition idshort_syntax (s : list Z) : Prop :=
   exists c r, s = c :: r /\ ascii_letter c /\ Forall idshort_char r.
 Definition ascii_letter_b (c : Z) : bool := in_cls c [(65, 90); (97, 122)].
+
+(* ---- AASd-014 / AASd-131 (constraints.rst) ------------------------------------------------ *)
+(* AASd-014: Either the attribute globalAssetId or specificAssetId of an Entity must be set if
+   Entity/entityType is set to SelfManagedEntity.  Otherwise, they do not exist.
+   AASd-131: The globalAssetId or at least one specificAssetId shall be defined for
+   AssetInformation.  In both cases a present globalAssetId is a valid Identifier.
+   For owner OSem the [gaid] field stands for HasSemantics/semanticId. *)
+Definition cnum (o : owner) : Z := match o with OEntity => 14 | OAsset => 131 | OSem => 118 end.
+Definition wf_owner (o : owner) (s : st) : Prop :=
+  gaid s <> GBad /\
+  match o with
+  | OEntity => if etype s then (gaid s <> GNone \/ items s <> [])
+               else (gaid s = GNone /\ items s = [])
+  | OAsset => gaid s <> GNone \/ items s <> []
+  (* AASd-118: if a supplemental semantic ID is defined, there shall also be a main semantic ID *)
+  | OSem => items s <> [] -> gaid s <> GNone
+  end.
